@@ -144,6 +144,13 @@ pub const TOKB: &[&str] = &[
     "--- a/f b/f\n",
     "--- a/f g\t\n",
     "--- /dev/null/\n",
+    "--- a/f\t2024-05-06 07:08:09+02\n",
+    "+++ b/f\t1970-01-01 00:00:00 +0\n",
+    "+++ b/f\t1970-01-01 00:00:00.\n",
+    "+++ b/f\t1970-01-01 01:00:00.000000000 +0100\n",
+    "--- a/f\t1969-12-31 19:00:00 -05\n",
+    "+++ b/f 1970-01-01 00:00:00 -\n",
+    "+++ b/f\t1970-01-01 00:00:0\n",
     "+++ \"/dev/null/.\"\n",
     "+++ /dev//null\n",
     "+++ b/f g\t2020-01-02 03:04:05 +0000\n",
